@@ -10,3 +10,5 @@ import AnyTLS.Props.C09
 #print axioms AnyTLS.C09.later_open_fails
 #print axioms AnyTLS.C09.later_write_fails
 #print axioms AnyTLS.C09.failed_write_closes
+#print axioms AnyTLS.C09.every_schedule_is_bounded
+#print axioms AnyTLS.C09.stuck_means_finished
